@@ -179,6 +179,15 @@ def r2_constant_fields_invariant(ctx):
             detail = ("`%s` is rebuilt as the constant %d, but a sealed state can hold another value: seal sets it to %d only at bb%s (not on every path) "
                       "and next_unsealed copies it — the rebuilt state diverges from the original" % (f, cv, cv, sorted(blocks)))
             r.violation("%s/not-invariant" % f, detail, where)
+            # the part of the clause that does hold today and must keep holding: when the block is sealed WITH a proposer action, the field has the
+            # constant on every path (so a chain of action-sealed blocks is restart-equivalent).  A special-case early return that skips the reset breaks it.
+            discr = [x for b2, t in seal.iter_terms("switch") for x in [seal.rec_operand(t["discr"], b2, "T")] if x[0] == "discr" and sig(q.novers(x[1])) == "$2"]
+            if discr:
+                fz = q.force(seal, {discr[0]: 1})
+                wo = fz.reach_from(0, avoid=list(blocks))
+                r.check(bool(blocks) and not any(b in wo for b in seal.return_blocks()), "%s/const-under-action" % f, "sealed with a proposer action ⇒ `%s` = %d on every path" % (f, cv),
+                        "a block sealed with a proposer action can keep `%s` ≠ %d (a path through seal and its callees skips the reset): from_block rebuilds it as %d, "
+                        "so the rebuilt state pays the next proposer differently" % (f, cv, cv), "%s:%s" % (seal.file, seal.line))
     if n == 0:
         r.ok("no-constant-fields", "from_block has no constant initialisers")
 
